@@ -6,7 +6,7 @@ from z3 import And, Or, Not, Implies, If, IntVal, RealVal, BoolVal
 from . import sorts as so
 from .sorts import fresh, I, R, B
 from .values import (SList, SDict, SSet, SObj, TupleSpec, Closure, Callback, FuncRef, PyConst, NONE,
-                     Unsupported, coerce)
+                     Unsupported, coerce, SDictOfLists, SListRef)
 from .engine import _EmptyList, _EmptyDict, _PyList, PathEnd, RaiseEx, View
 
 
@@ -250,6 +250,8 @@ class Lib:
             if tag == 'items':
                 d = v[1]
                 ks = self.keyseq(run, d)
+                if isinstance(d, SDictOfLists):
+                    return ks, (lambda i: (ks.a[i], d.at(ks.a[i])))
                 return ks, (lambda i: (ks.a[i], d.vobj(ks.a[i]) if d.vobj is not None else d.val[ks.a[i]]))
             if tag == 'keys':
                 ks = self.keyseq(run, v[1])
@@ -271,6 +273,9 @@ class Lib:
                 return v, (lambda i: v.esort.unpack(v.a[i]))
             return v, (lambda i: v.a[i])
         if isinstance(v, SDict):
+            ks = self.keyseq(run, v)
+            return ks, (lambda i: ks.a[i])
+        if isinstance(v, SDictOfLists):
             ks = self.keyseq(run, v)
             return ks, (lambda i: ks.a[i])
         if isinstance(v, SSet):
@@ -397,6 +402,27 @@ class Lib:
             raise Unsupported('dict comprehension shape at line %d' % e.lineno)
         g = e.generators[0]
         src = run.ev(g.iter, env)
+        if isinstance(src, tuple) and src and src[0] == 'items' and isinstance(g.target, ast.Tuple) and len(g.target.elts) == 2 \
+                and all(isinstance(t, ast.Name) for t in g.target.elts) and isinstance(e.key, ast.Name) and e.key.id == g.target.elts[0].id:
+            d = src[1]
+            x = fresh('dk', d.ksort)
+            le = _ChainEnv(env)
+            le[g.target.elts[0].id] = x
+            le[g.target.elts[1].id] = d.at(x) if isinstance(d, SDictOfLists) else d.val[x]
+            saved = len(run.temp_assume)
+            run.temp_assume.append(d.dom[x])
+            guard = self.protect_doms(run, env)
+            try:
+                val = run.ev(e.value, le)
+            finally:
+                del run.temp_assume[saved:]
+                self.restore_doms(run, guard)
+            if not z3.is_expr(val):
+                raise Unsupported('dict comprehension value at line %d' % e.lineno)
+            res = SDict(d.ksort, val.sort(), dom=d.dom, name='dcomp')
+            run.assume(so.forall(d.ksort, lambda k: Implies(d.dom[k], res.val[k] == z3.substitute(val, (x, k)))))
+            res.defined_from = d
+            return res
         if isinstance(src, tuple) and src and src[0] == 'keys':
             src = src[1]
         if not (isinstance(src, SDict) and isinstance(g.target, ast.Name) and isinstance(e.key, ast.Name) and e.key.id == g.target.id):
@@ -648,6 +674,16 @@ class Lib:
             run.assume(so.forall_idx(k, lambda j: so.forall_idx(k, lambda j2: Implies(j != j2, src(j) != src(j2)))))
             res.sample_src = src
             res.sample_pop = pop
+            if getattr(pop, 'posf', None) is not None and not isinstance(pop.esort, TupleSpec):
+                E = pop.esort
+                posf = z3.Function('smp_pos!%d' % next(so._counter), E, I)
+                memf = z3.Function('smp_mem!%d' % next(so._counter), E, B)
+                res.posf = lambda x: posf(x)
+                res.memberf = lambda x: memf(x)
+                run.assume(so.forall_idx(k, lambda j: And(memf(res.a[j]), posf(res.a[j]) == j)))
+                run.assume(so.forall(E, lambda x: Implies(memf(x), And(0 <= posf(x), posf(x) < k, res.a[posf(x)] == x, pop.memberf(x)))))
+            if so.Mode.finite:
+                run.assume(k <= so.Mode.lmax)
             run.site('random.sample', lineno, pop=pop, k=k, result=res)
             return res
         if name in ('np.random.binomial', 'numpy.random.binomial'):
@@ -720,6 +756,12 @@ class Lib:
             raise Unsupported('list method %s' % attr)
         if isinstance(recv, _EmptyList):
             raise Unsupported('method %s on an untyped list literal at line %d (declare it in the contract locals)' % (attr, lineno))
+        if isinstance(recv, SDictOfLists):
+            if attr == 'items':
+                return ('items', recv)
+            if attr == 'keys':
+                return ('keys', recv)
+            raise Unsupported('dict-of-lists method %s' % attr)
         if isinstance(recv, SDict):
             if attr == 'pop' and len(args) == 1:
                 return run.dict_pop(recv, args[0], lineno)
